@@ -68,6 +68,20 @@ class LinalgProxy:
         return inv_sym(A)
 
 
+class SymArray(_np.ndarray):
+    """object array of symbolic scalars that survives `astype(float)` (the library converts contexts to float64 before
+    handing them to the scaler); everything else is inherited from ndarray"""
+
+    def astype(self, dtype, *a, **k):
+        if dtype in ('float64', 'float', float, _np.float64):
+            return self.copy()
+        return _np.ndarray.astype(self, dtype, *a, **k)
+
+
+def symarray(a):
+    return _np.asarray(a, dtype=object).view(SymArray)
+
+
 def _objarr(a):
     out = _np.empty(a.shape, dtype=object)
     out[...] = a
